@@ -309,6 +309,11 @@ def gen_cases(rng, tier):
     # --- family A
     cases.append("dsp 1 xr/S1:1111:raw:h:r send:r:7a send:v0")           # former C25-F1 witness (fixed 5e999f4): must choose S1
     cases.append("dsp 0 iAny/S1:1111:raw:h:r,x0/S2:1111:raw:h:r send:v0 send:v1")
+    # a user serializer that uses the shared frame layout under a protobuf type name with a non-protobuf payload:
+    # the proto fast path must fall through to the registered serializers (both table orders, seeded and raw tables)
+    cases.append("dsp 0 x3/S0:1111:fB:h:r,iP/P send:v3 send:v0")
+    cases.append("dsp 0 iP/P,x3/S0:1111:fB:h:r send:v3")
+    cases.append("dsp 1 x0/S1:1111:fB:h:r,iAny/S2:1111:fB:h:r send:v0 send:v2")
     for _ in range(150 if q else 4000):
         cases.append(gen_dsp(rng))
     if not q:
